@@ -57,7 +57,9 @@ ValidSchemes == {0, 1, 2}
 
 RECURSIVE SumTo(_, _)
 SumTo(f, n) == IF n = 0 THEN 0 ELSE f[n] + SumTo(f, n - 1)
-Prefix(f) == [i \in 1..Len(f) |-> SumTo(f, i)]
+RECURSIVE PrefixAcc(_, _, _, _)
+PrefixAcc(f, i, acc, out) == IF i > Len(f) THEN out ELSE PrefixAcc(f, i + 1, acc + f[i], Append(out, acc + f[i]))
+Prefix(f) == PrefixAcc(f, 1, 0, <<>>)          \* <<f[1], f[1] + f[2], ...>>
 \* the same, as a local recurrence (linear; used on recorded arrays)
 IsPrefix(b, f) == Len(b) = Len(f) /\ \A i \in 1..Len(f) : b[i] = (IF i = 1 THEN 0 ELSE b[i - 1]) + f[i]
 
@@ -124,8 +126,9 @@ ByteOffset(o, a, b) == <<IF a = 0 THEN 0 ELSE o.foot.bounds[a], o.foot.bounds[b]
 \* get_range / deserialize_chunks: frames are decoded one after the other from byte s until byte e
 RangeIds(o, s, e) ==
   LET n == Len(o.frames)
-      I == {i \in 1..n : PhysEnd(o, i - 1) = s}
-      J == {j \in 1..n : PhysEnd(o, j) = e}
+      P == Prefix([j \in 1..n |-> HDR + o.frames[j].plen])          \* physical end of every frame
+      I == {i \in 1..n : (IF i = 1 THEN 0 ELSE P[i - 1]) = s}
+      J == {j \in 1..n : P[j] = e}
   IN IF I = {} \/ J = {} THEN <<Junk>>
      ELSE LET i == CHOOSE q \in I : TRUE
               j == CHOOSE q \in J : TRUE
@@ -383,7 +386,8 @@ DecodeRange(a, b, ids, offs) ==
   /\ phase = "built"
   /\ 0 <= a /\ a < b /\ b <= Len(xorb)
   /\ ids = SubSeq(Ids(xorb), a + 1, b)
-  /\ ids = RangeIds(obj, PhysEnd(obj, a), PhysEnd(obj, b))
+  /\ \A q \in (a + 1)..b : FrameOk(obj.frames[q])
+  /\ ids = [q \in 1..(b - a) |-> DecodeCid(obj.frames[a + q])]
   /\ Len(offs) = (b - a) + 1 /\ offs[1] = 0
   /\ \A j \in 1..(b - a) : offs[j + 1] = offs[j] + xorb[a + j].len
   /\ UNCHANGED vars
